@@ -7,6 +7,7 @@ import LW.Generated.Registry
 import LW.Model.Base64
 import LW.Model.Exchange
 import LW.Model.NetID
+import LW.Driver.BandOps
 namespace LW.Driver
 open LW LW.Canon
 
@@ -140,6 +141,7 @@ def runOp (st : DState) (op : String) (args : List String) : DState × String :=
       else if how == "bin" then (match unhx a with | some b => out (idOfBinary len b) | none => badop "hex")
       else if how == "scan" then (match unhx a with | some b => out (idOfScan len b) | none => badop "hex")
       else "ERR")
+  | "bq" => (st, bandQuery args)
   | "exchange" => (st, withArgs args (do
         let v ← nat; let c ← nat; let dr ← nat; let ch ← nat; let fk ← key; let sk ← key; let ek ← key; let ak ← key
         let t ← nat; let p ← frame
